@@ -412,6 +412,69 @@ func (e *Engine) detLoop(fn *ssa.Function, li *loopInfo, h int, em map[*ssa.Func
 			}
 		}
 	}
+	// first match: a value that depends on the entry at hand leaves the loop on an early exit — returned from inside the
+	// body, or carried out through a phi after a break. Which entry "the first" is depends on the iteration order.
+	// (Leaving with a constant — `return true` of an existence test — does not.)
+	dep := map[ssa.Value]bool{}
+	for _, in := range fn.Blocks[h].Instrs {
+		if nx, ok := in.(*ssa.Next); ok {
+			if refs := nx.Referrers(); refs != nil {
+				for _, r := range *refs {
+					if ex, ok := r.(*ssa.Extract); ok && ex.Index > 0 {
+						dep[ex] = true
+					}
+				}
+			}
+		}
+	}
+	// values that depend on the entry at hand, followed through the whole function: out of the loop they can only get
+	// through an early exit (the loop's own end passes on loop-carried phis, which are not followed here)
+	for changed := true; changed; {
+		changed = false
+		for _, blk := range fn.Blocks {
+			for _, in := range blk.Instrs {
+				v, ok := in.(ssa.Value)
+				if !ok || dep[v] {
+					continue
+				}
+				if _, isPhi := in.(*ssa.Phi); isPhi && inLoop(blk) && li.headers[blk.Index] {
+					continue // loop-carried accumulators are judged by the rules above
+				}
+				if _, isCall := in.(*ssa.Call); isCall && !inLoop(blk) {
+					continue // what a later call makes of the value is that call's business
+				}
+				for _, op := range in.Operands(nil) {
+					if *op != nil && dep[*op] {
+						dep[v] = true
+						changed = true
+						break
+					}
+				}
+			}
+		}
+	}
+	if len(dep) > 0 {
+		for _, blk := range fn.Blocks {
+			for _, in := range blk.Instrs {
+				if ret, ok := in.(*ssa.Return); ok {
+					for _, r := range ret.Results {
+						// a flag or an error that stops the search is the same answer whichever entry raised it first
+						// (which of several errors is reported is not followed here)
+						if bt, ok := r.Type().Underlying().(*types.Basic); ok && bt.Kind() == types.Bool {
+							continue
+						}
+						if r.Type().String() == "error" {
+							continue
+						}
+						if dep[r] {
+							reasons = append(reasons, fmt.Sprintf("returns a value taken from the first matching entry in map order (line %d)", e.prog.Fset.Position(ret.Pos()).Line))
+							break
+						}
+					}
+				}
+			}
+		}
+	}
 	// collect-then-sort: every use after the loop of a slice built in the loop must be dominated by a sort
 	seen := map[ssa.Value]bool{}
 	for _, c := range collectors {
